@@ -196,12 +196,14 @@ def colsAsIs (c : PySlice) (l : Nat) : Except Err (List Int) :=
     | some v => if v < 0 then l + v else (if v > l then l else v)
   if step = 0 then .error .valueError else .ok (pyRange start stop step)
 
+/-- `np.arange(*c.indices(l))` (the repaired helper) -/
+def colsPy (c : PySlice) (l : Nat) : Except Err (List Int) :=
+  match pyIndices l c with
+  | .ok ix => .ok (ix.map Int.ofNat)
+  | .error e => .error e
+
 def colsOf (cfg : Cfg) (c : PySlice) (l : Nat) : Except Err (List Int) :=
-  if cfg.readsFix then
-    match pyIndices l c with
-    | .ok ix => .ok (ix.map Int.ofNat)
-    | .error e => .error e
-  else colsAsIs c l
+  if cfg.readsFix then colsPy c l else colsAsIs c l
 
 /-- the pairs of one row in `_get_iis_from_slices` (row number as given) -/
 def rowPairs (cfg : Cfg) (c : PySlice) (ls : List Nat) (num : Int) : Except Err (List (Int × Int)) :=
@@ -290,16 +292,23 @@ def pairedIis (r c : List Int) : Except Err (List (Int × Int)) :=
   else if r.length = 1 then .ok (c.map fun j => (r.headD 0, j))
   else .error .valueError
 
-/-- positions of the `True` cells: `np.where(mask._data)` then `_convert_from_1d` with the
-mask's own starts (`np.where(starts <= ii)[0][-1]`) -/
-def findRow (sts : List Nat) (ii : Nat) : Nat :=
-  ((sts.zipIdx).foldl (fun acc p => if p.1 ≤ ii then p.2 else acc) 0)
+/-- `np.where(flat)[0]` : positions of the `True` entries (counted from `k`) -/
+def trueIdx : List Bool → Nat → List Nat
+  | [], _ => []
+  | b :: bs, k => if b then k :: trueIdx bs (k + 1) else trueIdx bs (k + 1)
 
+/-- `np.where(starts <= ii)[0][-1]` : the last row whose start is `≤ ii` -/
+def findRowAux (ii : Nat) : List Nat → Nat → Nat → Nat
+  | [], _, best => best
+  | st :: rest, k, best => findRowAux ii rest (k + 1) (if st ≤ ii then k else best)
+
+def findRow (sts : List Nat) (ii : Nat) : Nat := findRowAux ii sts 0 0
+
+/-- positions of the `True` cells: `np.where(mask._data)` then `_convert_from_1d` with the
+mask's own starts -/
 def whereMask (mask : List (List Bool)) : List (Int × Int) :=
-  let flat := mask.flatten
   let sts := starts (mask.map List.length)
-  let hits := (flat.zipIdx.filter (·.1)).map (·.2)
-  hits.map fun ii =>
+  (trueIdx mask.flatten 0).map fun ii =>
     let r := findRow sts ii
     ((r : Int), ((ii - sts.getD r 0 : Nat) : Int))
 
@@ -729,8 +738,11 @@ def specTargets (rows : Rows α) (r : Sel) (c : CSel) : Except Err (List (Nat ×
       | .error e => .error e
       | .ok groups => .ok groups.flatten
 
-def specMaskTargets (mask : List (List Bool)) : List (Nat × Nat) :=
-  (mask.zipIdx.map fun (row, r) => (row.zipIdx.filter (·.1)).map fun (_, c) => (r, c)).flatten
+/-- the `True` cells of a mask, row-major -/
+def specMaskTargets : List (List Bool) → List (Nat × Nat)
+  | [] => []
+  | row :: rest =>
+    (trueIdx row 0).map (fun c => (0, c)) ++ (specMaskTargets rest).map (fun p => (p.1 + 1, p.2))
 
 /-- value list for `t` cells (numpy: same count, or one value for all) -/
 def specVals (v : Val α) (t : Nat) : Except Err (List α) :=
